@@ -61,6 +61,10 @@ func Midnight(d Date, loc *time.Location) (t time.Time, ok bool) {
 
 // LoadZone mirrors the documented fallback: an unknown zone name means UTC.
 func LoadZone(name string) *time.Location {
+	// "Local" is how Go spells the zone of the running process; as an agency_timezone it names no zone
+	if name == "Local" {
+		return time.UTC
+	}
 	loc, err := time.LoadLocation(name)
 	if err != nil {
 		return time.UTC
